@@ -40,6 +40,18 @@ def trace_ops(rng, tier):
         ops.append({"op": "load", "image": [251, t, 19] + [2] * 36 + [1], "ss": 16, "ps": ps})
         ops.append({"op": "edge", "n": 130})
         ops += post_halt(rng)
+    # limits carried across loads: a program with *PROGRAMSIZE / *STACKSIZE NOSET keeps the limits of the previous load (or of a new machine),
+    # AUTO takes the image length; the jump targets straddle the old limit, the image length and the RAM end
+    for first in (None, (200, 32), (20, 64), (0, 16), (45, 0), (-1, 48)):
+        for ps2, ss2 in ((-2, -1), (-2, 32), (-1, -1), (-1, 16), (30, -1)):
+            for tgt in (38, 39, 40, 41, 19, 20, 21, 44, 45, 46, 199, 200, 201, 238, 239):
+                if first is None:
+                    ops.append({"op": "new"})
+                else:
+                    ops.append({"op": "load", "image": [2, 2, 2, 1], "ss": first[1], "ps": first[0]})
+                    ops.append({"op": "edge", "n": 5})
+                ops.append({"op": "load", "image": [251, 0xD5, 64, 40, 251, tgt, 19] + [2] * 32 + [1], "ss": ss2, "ps": ps2})    # LDSP; PUSH R0; LD PC, tgt
+                ops.append({"op": "edge", "n": 80})
     # STOP fetched while interrupts are enabled and the key is pressed around the fetch: every press time, per edge
     p3 = json.load(open(os.path.join(vlib.VERIF, "programs", "progint3.json")))
     for t in range(40, 95):
